@@ -40,8 +40,69 @@ DIRS = ['+SKIP', '-SKIP', '+REQUIRES(module:os)', '-REQUIRES(module:os)',
         # several conditions in one directive: each is judged on its own, in order
         '+REQUIRES(module:os, %s)' % UNMET_A, '+REQUIRES(%s, module:os)' % UNMET_A, '-REQUIRES(module:os, %s)' % UNMET_A,
         '+REQUIRES(%s, %s)' % (UNMET_A, UNMET_B), '-REQUIRES(module:os, %s, %s)' % (UNMET_A, UNMET_B)]
+# conditions whose truth is a fact about the process *when the directive is reached*: command line flag,
+# environment variable (three spellings), platform / implementation / version tags
+DYN_CONDS = ['--xvf', 'env:XV_E==1', 'env:XV_E!=1', 'env:XV_E', '--xvg']
+TAG_CONDS = {'linux': True, 'win32': False, 'cpython': True, 'pypy': False, 'py3': True, 'py2': False,
+             'posix': True, 'nt': False}
+DIRS_DYN = (['%sREQUIRES(%s)' % (sg, c) for c in DYN_CONDS for sg in '+-'] +
+            ['%sREQUIRES(%s)' % (sg, c) for c in sorted(TAG_CONDS) for sg in '+-'] +
+            ['+REQUIRES(--xvf, env:XV_E==1)', '-REQUIRES(--xvf, env:XV_E==1)', '+REQUIRES(linux, --xvf)',
+             '+REQUIRES(module:os, --xvg)'])
+WORLD_OPS = ['argv+f', 'argv-f', 'argv+g', 'env=1', 'env=0', 'env=empty', 'envdel']
+BASE_WORLDS = [((), None), (('--xvf',), None), ((), '1'), (('--xvf',), '1'), (('--xvg',), '0'), (('--xvf', '--xvg'), ''),
+               ((), '0')]
+
+
+def met(arg, world):
+    if arg.startswith('module:'):
+        return arg == 'module:os'
+    if arg.startswith('--'):
+        return arg in world['argv']
+    if arg.startswith('env:'):
+        expr = arg[4:]
+        val = world['env']
+        if '==' in expr:
+            return val == expr.split('==')[1]
+        if '!=' in expr:
+            return val != expr.split('!=')[1]
+        return bool(val)
+    return TAG_CONDS[arg]
+
+
+def world_apply(op, world):
+    if op == 'argv+f':
+        world['argv'] = world['argv'] | {'--xvf'}
+    elif op == 'argv-f':
+        world['argv'] = world['argv'] - {'--xvf'}
+    elif op == 'argv+g':
+        world['argv'] = world['argv'] | {'--xvg'}
+    elif op == 'env=1':
+        world['env'] = '1'
+    elif op == 'env=0':
+        world['env'] = '0'
+    elif op == 'env=empty':
+        world['env'] = ''
+    elif op == 'envdel':
+        world['env'] = None
+
+
+WORLD_CODE = {
+    'argv+f': "_a = __import__('sys').argv; _a.append('--xvf')",
+    'argv-f': "_a = __import__('sys').argv; _a[:] = [x for x in _a if x != '--xvf']",
+    'argv+g': "_a = __import__('sys').argv; _a.append('--xvg')",
+    'env=1': "__import__('os').environ['XV_E'] = '1'",
+    'env=0': "__import__('os').environ['XV_E'] = '0'",
+    'env=empty': "__import__('os').environ['XV_E'] = ''",
+    'envdel': "_e = __import__('os').environ.pop('XV_E', None)",
+}
+
 FORMS = ['one', 'multi', 'multi_first', 'compound', 'compound_last', 'deco', 'want', 'badwant', 'strlit', 'wsprobe',
-         'decoclass', 'decoclass_last', 'decoasync', 'compound_comment', 'multi_comment']
+         'decoclass', 'decoclass_last', 'decoasync', 'compound_comment', 'multi_comment', 'compound_wsline',
+         'multi_wsline']
+# what may follow a block directive line before the next statement (findings F23: blank prompt lines)
+BLOCK_TAILS = {'blank1': ['>>>'], 'blank2': ['>>>', '>>>'], 'blank3ws': ['>>>   ', '>>>', '>>> '],
+               'comment': ['>>> # just a comment'], 'comment_blank': ['>>> # just a comment', '>>>', '>>>']}
 
 EX_ALPHABET = ([('block', d) for d in DIRS[:10] + [DIRS[10]]] +
                [('stmt', 'one', None), ('stmt', 'one', '+SKIP'), ('stmt', 'one', '-SKIP'),
@@ -57,15 +118,16 @@ def parse_dir(d):
     body = d[1:]
     if body.startswith('REQUIRES'):
         args = [a.strip() for a in body[len('REQUIRES('):-1].split(',')]
-        return ('REQUIRES', pos, [(a, a == 'module:os') for a in args])
+        return ('REQUIRES', pos, args)
     return (body, pos, [])
 
 
 class Model(object):
-    def __init__(self, skip=False, req=(), iw=False):
+    def __init__(self, skip=False, req=(), iw=False, world=None):
         self.skip = skip
         self.req = set(req)
         self.iw = iw
+        self.world = world if world is not None else {'argv': frozenset(), 'env': None}
 
     def apply(self, d, state=None):
         skip, req, iw = state if state is not None else (self.skip, set(self.req), self.iw)
@@ -73,8 +135,8 @@ class Model(object):
         if name == 'SKIP':
             skip = pos
         elif name == 'REQUIRES':
-            for arg, met in args:
-                if not met:
+            for arg in args:
+                if not met(arg, self.world):
                     if pos:
                         req = set(req) | {arg}
                     else:
@@ -93,8 +155,12 @@ class Model(object):
         return st
 
 
-def run_model(events, defaults=()):
-    m = Model()
+def make_world(base):
+    return {'argv': frozenset(base[0]), 'env': base[1]} if base else {'argv': frozenset(), 'env': None}
+
+
+def run_model(events, defaults=(), base=None):
+    m = Model(world=make_world(base))
     for d in defaults:
         m.block(d)
     out = []
@@ -110,16 +176,20 @@ def run_model(events, defaults=()):
             states.add((skip, len(req) > 0))
             if (not skip) and not req:
                 out.append(i)
+                if e[1] == 'world':
+                    world_apply(e[3], m.world)
                 if e[1] == 'badwant' or (e[1] == 'wsprobe' and not iw):
                     fail = True
                     break
     return out, fail, states
 
 
-def stmt_lines(i, form, inline):
+def stmt_lines(i, form, inline, op=None):
     c = '  # xdoctest: %s' % inline if inline else ''
     if form == 'one':
         return ['>>> quiet(%d)%s' % (i, c)]
+    if form == 'world':
+        return ['>>> quiet(%d); %s%s' % (i, WORLD_CODE[op], c)]
     if form == 'multi':
         return ['>>> quiet(', '...     %d)%s' % (i, c)]
     if form == 'multi_first':
@@ -133,6 +203,11 @@ def stmt_lines(i, form, inline):
     if form == 'compound_comment':
         # a comment-only line inside the statement that carries the inline directive
         return ['>>> for _k in range(1):', '...     # a comment inside the body', '...     quiet(%d)%s' % (i, c)]
+    if form == 'compound_wsline':
+        # a whitespace-only line inside the body, before the line that carries the directive (finding F24)
+        return ['>>> for _k in range(1):', '...     _x = 1', '...     ', '...     quiet(%d)%s' % (i, c)]
+    if form == 'multi_wsline':
+        return ['>>> z%d = [' % i, '...   ', '...     quiet(%d)]%s' % (i, c)]
     if form == 'multi_comment':
         return ['>>> z%d = [  # a trailing comment on the first line' % i, '...     # a comment-only line',
                 '...     quiet(%d)]%s' % (i, c)]
@@ -159,9 +234,11 @@ def render(events):
     for e in events:
         if e[0] == 'block':
             L.append('>>> # xdoctest: %s' % e[1])
+            if len(e) > 2 and e[2]:
+                L += BLOCK_TAILS[e[2]]
         else:
             i += 1
-            L += stmt_lines(i, e[1], e[2])
+            L += stmt_lines(i, e[1], e[2], e[3] if len(e) > 3 else None)
     return '\n'.join(L)
 
 
@@ -182,11 +259,41 @@ def config_from_options(optstr):
     return cfg._populate_from_cli(ns)
 
 
-def check_history(ctx, events, defaults=(), origin='random'):
+class World(object):
+    """puts the process into the base world of a history (command line flags, one environment variable) and back"""
+    def __init__(self, base):
+        self.base = base
+
+    def __enter__(self):
+        import sys
+        import os
+        self.argv = list(sys.argv)
+        self.env = os.environ.get('XV_E')
+        sys.argv[:] = [a for a in sys.argv if a not in ('--xvf', '--xvg')] + list(self.base[0] if self.base else ())
+        os.environ.pop('XV_E', None)
+        if self.base and self.base[1] is not None:
+            os.environ['XV_E'] = self.base[1]
+
+    def __exit__(self, *a):
+        import sys
+        import os
+        sys.argv[:] = self.argv
+        os.environ.pop('XV_E', None)
+        if self.env is not None:
+            os.environ['XV_E'] = self.env
+
+
+def check_history(ctx, events, defaults=(), origin='random', base=None):
+    with World(base):
+        _check_history(ctx, events, defaults, origin, base)
+
+
+def _check_history(ctx, events, defaults, origin, base):
     from xdoctest import doctest_example
     doc = render(events)
-    exp_out, exp_fail, states = run_model(events, defaults)
-    case = {'events': [list(e) for e in events], 'defaults': list(defaults), 'doc': doc}
+    exp_out, exp_fail, states = run_model(events, defaults, base)
+    case = {'events': [list(e) for e in events], 'defaults': list(defaults), 'doc': doc,
+            'base': [list(base[0]), base[1]] if base else None}
     ctx.evaluation()
     has_dir = any(e[0] == 'block' or e[2] for e in events)
     has_stmt = any(e[0] == 'stmt' for e in events)
@@ -197,7 +304,8 @@ def check_history(ctx, events, defaults=(), origin='random'):
             ctx.nontrivial_count(1)
 
     def bad(mech, msg, **kw):
-        ctx.violation(mech, msg + '\n  defaults=%r\n--- docstring ---\n%s' % (list(defaults), doc), case, **kw)
+        ctx.violation(mech, msg + '\n  defaults=%r command line flags / XV_E at the start=%r\n--- docstring ---\n%s' % (
+            list(defaults), base, doc), case, **kw)
 
     if not has_stmt:
         return
@@ -218,6 +326,15 @@ def check_history(ctx, events, defaults=(), origin='random'):
     s = rec.summary
     T = normalise_T(rec.T)
     inline_unmet = any(e[0] == 'stmt' and e[2] and 'xv_nx_' in e[2] and e[2][0] == '+' for e in events)
+    dyn_cells = set()
+    if base is not None:
+        for e in events:
+            d = e[1] if e[0] == 'block' else e[2]
+            if d and 'REQUIRES' in d:
+                for a in parse_dir(d)[2]:
+                    if a in DYN_CONDS or a in TAG_CONDS:
+                        dyn_cells.add('cond:%s' % (a.split('=')[0].split('!')[0] if a.startswith('env:') else
+                                                   'flag' if a.startswith('--') else 'tag'))
     if bool(s['failed']) != exp_fail:
         ei = s['exc_info']
         bad('verdict', 'model says the doctest %s, observed %s (%r); event log %r, model %r' % (
@@ -240,17 +357,33 @@ def check_history(ctx, events, defaults=(), origin='random'):
     for e in events:
         if e[0] == 'block':
             ctx.cell('event:block')
+            if len(e) > 2 and e[2]:
+                ctx.cell('blocktail:' + e[2])
         else:
             ctx.cell('form:' + e[1])
             if e[2]:
                 ctx.cell('event:inline')
     if defaults:
         ctx.cell('defaults:' + defaults[0])
+    for c in dyn_cells:
+        ctx.cell(c)
+    if base is not None and any(e[0] == 'stmt' and e[1] == 'world' and i_ran for e, i_ran in world_events(events, exp_out)):
+        ctx.cell('world-changed-inside-the-doctest')
     if ctx.shard == 0 and origin == 'random':
         ctx.sample({'docstring': doc, 'defaults': list(defaults), 'model_enabled': exp_out, 'observed_T': T,
                     'model_fails': exp_fail, 'observed': harness.outcome(s)}, limit=3)
 
 
+def world_events(events, exp_out):
+    i = 0
+    for e in events:
+        if e[0] == 'stmt':
+            i += 1
+            yield e, i in exp_out
+
+
+DEFAULT_CHOICES_DYN = [(), (), ('+REQUIRES(--xvf)',), ('+REQUIRES(--xvg)', '+IGNORE_WHITESPACE'), ('+SKIP',),
+                       ('+REQUIRES(linux)',), ('+REQUIRES(win32)',)]
 DEFAULT_CHOICES = [(), (), ('+SKIP',), ('+IGNORE_WHITESPACE',), ('-SKIP',), ('+REQUIRES(%s)' % UNMET_A,),
                    ('+REQUIRES(module:os)',), ('+REQUIRES(%s)' % UNMET_B, '+IGNORE_WHITESPACE')]
 
@@ -286,8 +419,9 @@ def probe_f9(ctx):
 def required_cells(tier):
     cells = ['state:skip=0,req=0', 'state:skip=1,req=0', 'state:skip=0,req=1', 'state:skip=1,req=1',
              'event:block', 'event:inline', 'defaults:+SKIP', 'defaults:+IGNORE_WHITESPACE', 'defaults:-SKIP',
-             'defaults:+REQUIRES(%s)' % UNMET_A, 'defaults:+REQUIRES(module:os)', 'f9-probe-behaves']
-    cells += ['form:' + f for f in FORMS]
+             'defaults:+REQUIRES(%s)' % UNMET_A, 'defaults:+REQUIRES(module:os)', 'f9-probe-behaves',
+             'cond:flag', 'cond:env:XV_E', 'cond:tag', 'world-changed-inside-the-doctest', 'defaults:+REQUIRES(--xvf)']
+    cells += ['form:' + f for f in FORMS] + ['blocktail:' + t for t in BLOCK_TAILS]
     return cells
 
 
@@ -312,13 +446,27 @@ def run_shard(ctx):
         events = []
         for _ in range(rng.randint(5, 12)):
             if rng.random() < 0.35:
-                events.append(('block', rng.choice(DIRS)))
+                events.append(('block', rng.choice(DIRS), rng.choice([None, None] + sorted(BLOCK_TAILS))))
             else:
                 events.append(('stmt', rng.choice(FORMS), rng.choice([None, None] + DIRS)))
         check_history(ctx, events, origin='random')
         d = rng.choice(DEFAULT_CHOICES)
         if d:
             check_history(ctx, events, defaults=d, origin='random')
+        # the same kind of history with conditions that are facts about the process (command line, environment,
+        # platform) at the moment the directive is reached; the process is put into a base world first and
+        # statements of the doctest may change it
+        base = rng.choice(BASE_WORLDS)
+        events = []
+        for _ in range(rng.randint(4, 10)):
+            r = rng.random()
+            if r < 0.4:
+                events.append(('block', rng.choice(DIRS_DYN if rng.random() < 0.8 else DIRS)))
+            elif r < 0.55:
+                events.append(('stmt', 'world', rng.choice([None, None, None] + DIRS_DYN), rng.choice(WORLD_OPS)))
+            else:
+                events.append(('stmt', rng.choice(FORMS), rng.choice([None, None] + DIRS_DYN + DIRS[:2])))
+        check_history(ctx, events, defaults=rng.choice(DEFAULT_CHOICES_DYN), origin='random', base=base)
     if ctx.shard == 0:
         probe_f9(ctx)
     ridealong.drain(ctx, props=('C04',))
@@ -337,7 +485,9 @@ def replay(case, ctx):
     elif case.get('ridealong'):
         raise SystemExit('ride-along witnesses are replayed through the check that produced them')
     else:
-        check_history(ctx, [tuple(e) for e in case['events']], defaults=tuple(case['defaults']))
+        base = case.get('base')
+        check_history(ctx, [tuple(e) for e in case['events']], defaults=tuple(case['defaults']),
+                      base=(tuple(base[0]), base[1]) if base else None)
     ridealong.drain(ctx, props=('C04',))
 
 
